@@ -21,6 +21,13 @@ func init() {
 
 // uc <init> <clients> <events>   (see ucops.RunUC)
 func exec(op string, args []string) []string {
+	if op == "runner" && len(args) == 3 {
+		var out []string
+		if txt, ok := core.Guard(func() { out = runRunner(args[0], args[1]) }); !ok {
+			return []string{"panic:" + txt}
+		}
+		return out
+	}
 	if op != "uc" || len(args) != 3 {
 		return []string{"bad-op"}
 	}
@@ -58,7 +65,50 @@ func scenarios() []scenario {
 	}
 }
 
+// runnerCases: the real prober component consuming a planted queue (see runner.go).  <n> (third argument) is an upper
+// bound of the probes in the queue: the model pops them all at once.
+func runnerCases(rng *rand.Rand, n int, emit core.Emit) {
+	for c := 0; c < n; c++ {
+		offsets := []string{"1+2", "1", "1+2+3+4", "-"}[rng.Intn(4)]
+		if c%3 == 0 {
+			offsets = "-" // started with an empty --discovery-revival-ports
+		}
+		var init []string
+		addrs := []string{"1.1.1.1:10480", "2.2.2.2:10480", "3.3.3.3:10580"}
+		for i, a := range addrs[:1+rng.Intn(3)] {
+			switch rng.Intn(4) {
+			case 0: // a heartbeat: port probe queued, port_retry set
+				init = append(init, fmt.Sprintf("report|%s|10481|0000000%d|%s|3", a, i+1, hexs("srv")))
+			case 1: // REST submission
+				init = append(init, "addserver|"+a)
+			default: // an arbitrary record with marks, and probes (not) backing them at arbitrary retry counts
+				st := rng.Intn(512)
+				init = append(init, fmt.Sprintf("call|add!%s/10481/%d/1/z!refuse", a, st))
+				// at most one probe per server: the workers run concurrently, two outcomes for one record do not commute
+				if g := rng.Intn(3); g < 2 {
+					maxr := rng.Intn(3)
+					init = append(init, fmt.Sprintf("call|penq!%s!%d!%d!%d!%d!z!z", a, 10480+g, 1-g, rng.Intn(maxr+1), maxr))
+				}
+			}
+		}
+		if rng.Intn(2) == 0 { // probes that expired while nobody was polling: dropped and counted
+			init = append(init, "adv3000000000")
+			for k := 0; k < 1+rng.Intn(4); k++ {
+				init = append(init, fmt.Sprintf("call|penq!9.9.9.%d:1!10480!1!0!1!z!%d", k+1, world.Epoch.UnixNano()+int64(1+rng.Intn(2))*1000000000))
+			}
+		}
+		emit("runner", offsets, strings.Join(init, ","), "24")
+	}
+	// a backlog of nothing but expired probes
+	emit("runner", "1+2", "call|penq!9.9.9.1:1!10480!1!0!1!z!"+fmt.Sprint(world.Epoch.UnixNano()+256)+",call|penq!9.9.9.2:1!10480!0!0!1!z!"+fmt.Sprint(world.Epoch.UnixNano()+512)+",adv1000000000", "24")
+}
+
 func gen(rng *rand.Rand, tier core.Tier, emit core.Emit) {
+	if tier == core.Thorough {
+		runnerCases(rng, 150, emit)
+	} else {
+		runnerCases(rng, 6, emit)
+	}
 	scs := scenarios()
 	maxK := 12
 	if tier == core.Thorough {
